@@ -7,6 +7,7 @@ itself is not modified").
     if isinstance(new_score, s.Score):   parts = new_score.parts
     elif isinstance(new_score, s.Part):  parts = [new_score]
     else:                                parts = []
+    parts = list({id(part): part for part in parts}.values())    # fix F-C16-6: a part listed twice is ONE object
     for part in parts:
         for note in part.notes:
             _transpose_note_inplace(note, interval)
@@ -82,16 +83,56 @@ def transposePart (iv : Interval) (h : Heap) (p : Nat) : Option Heap :=
   | some (.part objs) => (notesOf h objs).foldlM (transposeAt iv) h
   | _ => none
 
-/-- the dispatch on the type of the copy -/
-def partsOf (h : Heap) (root : Nat) : List Nat :=
+/-- the dispatch on the type of the copy: what the argument LISTS -/
+def listedParts (h : Heap) (root : Nat) : List Nat :=
   match h[root]? with
   | some (.score ps) => ps
   | some (.part _) => [root]
   | _ => []
 
+/-- `list({id(part): part for part in parts}.values())`: every object once, in the order of its first listing
+    (`seen` = the keys the dict holds so far) -/
+def uniqueParts (seen : List Nat) : List Nat → List Nat
+  | [] => []
+  | p :: ps => if seen.contains p then uniqueParts seen ps else p :: uniqueParts (p :: seen) ps
+
+/-- the parts the outer loop runs over -/
+def partsOf (h : Heap) (root : Nat) : List Nat := uniqueParts [] (listedParts h root)
+
 /-- `transpose(score, interval)`: the heap after the call and the address of the returned object -/
 def transpose (h : Heap) (root : Nat) (iv : Interval) : Option (Heap × Nat) :=
   let c := deepcopy h root
   ((partsOf c.1 c.2).foldlM (transposePart iv) c.1).map fun h2 => (h2, c.2)
+
+/-! ### the same loops as the interpreter runs them: the heap also when the call RAISES
+
+`transpose` above answers `none` when a note raises and forgets the heap; `transposeRun` keeps it: the loops stop at
+the first note that raises (the exception propagates, the half-transposed copy is garbage) and the heap at that moment
+is returned with `none` for the result.  (A note that raises inside `_transpose_note_inplace` may already carry its
+new step: that is a cell of the COPY, which nobody can reach after the raise; the model leaves the cell as it was.) -/
+
+/-- `for note in part.notes: _transpose_note_inplace(note, interval)`: (heap, completed) -/
+def runNotes (iv : Interval) : List Nat → Heap → Heap × Bool
+  | [], h => (h, true)
+  | a :: l, h =>
+    match transposeAt iv h a with
+    | some h' => runNotes iv l h'
+    | none => (h, false)
+
+/-- `for part in parts: …` -/
+def runParts (iv : Interval) : List Nat → Heap → Heap × Bool
+  | [], h => (h, true)
+  | p :: ps, h =>
+    match h[p]? with
+    | some (.part objs) =>
+      let r := runNotes iv (notesOf h objs) h
+      if r.2 then runParts iv ps r.1 else r
+    | _ => (h, false)
+
+/-- `transpose(score, interval)`: the heap when the call returns or raises, and the returned address (`none` = raised) -/
+def transposeRun (h : Heap) (root : Nat) (iv : Interval) : Heap × Option Nat :=
+  let c := deepcopy h root
+  let r := runParts iv (partsOf c.1 c.2) c.1
+  (r.1, if r.2 then some c.2 else none)
 
 end Model.TH
